@@ -3,7 +3,7 @@ from contracts import config as Cf
 
 from contracts import model as M
 
-UNITS = Cf.v2_units() + Cf.v1_units() + list(Cf.CONFIGURE_UNITS) + list(M.LOADER_UNITS)
+UNITS = Cf.v2_units() + Cf.v1_units() + list(Cf.WILD_UNITS) + list(Cf.CONFIGURE_UNITS) + list(M.LOADER_UNITS)
 LEMMAS = []
 NATIVE = [dict(name="three spellings of three scenarios run through the real configure + Model, outputs compared", harness="spellings_bounded", kind="bounded")]
 LEVEL = "other"
